@@ -44,6 +44,14 @@ def _limit_mem(gb):
         import resource
         lim = int(gb * (1 << 30))
         resource.setrlimit(resource.RLIMIT_AS, (lim, lim))
+        # coqc parses and evaluates large case terms recursively: give it all the stack the hard limit allows
+        try:
+            soft, hard = resource.getrlimit(resource.RLIMIT_STACK)
+            want = hard if hard != resource.RLIM_INFINITY else (256 << 20)
+            if soft == resource.RLIM_INFINITY or soft < want:
+                resource.setrlimit(resource.RLIMIT_STACK, (want, hard))
+        except (ValueError, OSError):
+            pass
     return f
 
 
@@ -191,7 +199,9 @@ def coqchk(vfile, timeout=2400):
             elif sec != "Theory":
                 problems.append(sec + ": " + t)
     axioms = [a.replace("Axioms: ", "") for a in axioms]
-    extra = [a for a in axioms if a not in STD_AXIOMS]
+    # anything the standard library itself declares (Coq.*: classical logic, functional extensionality, the real-number axioms,
+    # the primitive 63-bit integers and their specifications) is allowed and reported; anything else is a problem
+    extra = [a for a in axioms if a not in STD_AXIOMS and not a.startswith("Coq.")]
     if extra:
         problems.append("axioms outside the standard library's: " + ", ".join(extra))
     if rc != 0:
@@ -368,7 +378,7 @@ def coq_run_cases(name, imports, run_fn, case_terms, ty="list Z", shard=400, tim
         txt.append("Print out_%d." % k)
         rc, out = coq_eval("%s_%d_%d" % (name, os.getpid(), k), "\n".join(txt), timeout=timeout)
         if rc != 0:
-            raise RuntimeError("coq evaluation failed:\n" + out[-3000:])
+            raise RuntimeError("coq evaluation failed (%s, shard %d of %d, %d cases, %d characters):\n" % (name, k, len(shards), len(terms), sum(len(t) for t in terms)) + out[-3000:])
         val = parse_coq_value(out, marker="out_%d" % k)
         if val is None or len(val) != len(terms):
             raise RuntimeError("cannot parse coq output:\n" + out[:2000])
